@@ -54,20 +54,32 @@ def configs(tier, scratch):
     cwds = ["/", scratch]
     opts = [False, True]
     full = list(itertools.product(seeds, locs, utf8, cwds, opts))
+    extras = [("1", "C.utf8", "0", "/", False, e) for e in EXTRA_ENVS]
     if tier == "thorough":
-        return full + [full[0]]
+        return full + [full[0]] + extras
     # covering subset: every value of every dimension appears, every seed with >= 2 locales
     pick = [("0", "C", "0", "/", False), ("1", "C.utf8", "1", scratch, True), ("7", "POSIX", "0", scratch, False),
             ("4294967295", "xx_XX.nonexistent", "1", "/", True), ("1", "C", "0", "/", False), ("7", "C.utf8", "1", "/", True),
             ("0", "POSIX", "1", scratch, True), ("4294967295", "C", "0", scratch, False)]  # fmt: skip
-    return pick + [pick[0]]
+    return pick + [pick[0]] + extras
+
+
+EXTRA_ENVS = [  # further process-environment knobs, each run with hash seed 1 / C.utf8 (quick and thorough)
+    {"TZ": "Asia/Tokyo", "HOME": "/nonexistent", "USER": "someone-else", "HOSTNAME": "other-host"},
+    {"XPROC_CLOCK_OFFSET": "34560000"},  # the wall clock 400 days later
+    {"XPROC_RECURSION": "5000", "XPROC_NOGC": "1"},
+    {"PYTHONMALLOC": "malloc", "PYTHONDEVMODE": "1"},
+    {"COLUMNS": "20", "TERM": "dumb", "LANGUAGE": "fr:de", "LC_CTYPE": "POSIX"},
+]
 
 
 def run_child(cfg):
-    seed, loc, utf8, cwd, opt = cfg
+    seed, loc, utf8, cwd, opt = cfg[:5]
+    extra = cfg[5] if len(cfg) > 5 else {}
     env = {k: v for k, v in os.environ.items() if not k.startswith(("LC_", "LANG", "PYTHON"))}
     env.update({"PYTHONHASHSEED": seed, "LANG": loc, "LC_ALL": loc, "PYTHONUTF8": utf8, "PYAB_REPO": REPO,
                 "PYTHONPATH": VERIF + os.pathsep + os.path.join(REPO, "src"), "PYTHONDONTWRITEBYTECODE": "1"})  # fmt: skip
+    env.update(extra)
     cmd = [sys.executable] + (["-O"] if opt else []) + ["-m", "mc.xproc_child"]
     p = subprocess.run(cmd, cwd=cwd, env=env, capture_output=True, text=True, timeout=600)
     if p.returncode != 0:
@@ -118,7 +130,8 @@ def xproc(res, tier):
                 finally:
                     os.environ.pop("XPROC_FULL", None)
                 d = next((k for k, (a, b) in enumerate(zip(rows, full["rows"] or [])) if a != b), -1)
-                res.violation({"kind": "proc:differs", "config": {"PYTHONHASHSEED": cfg[0], "LANG": cfg[1], "PYTHONUTF8": cfg[2], "cwd": "scratch" if cfg[3] != "/" else "/", "-O": cfg[4]},
+                res.violation({"kind": "proc:differs", "config": {"PYTHONHASHSEED": cfg[0], "LANG": cfg[1], "PYTHONUTF8": cfg[2], "cwd": "scratch" if cfg[3] != "/" else "/", "-O": cfg[4],
+                                                                  "extra": cfg[5] if len(cfg) > 5 else {}},
                                "row": d, "observed": short(repr(full["rows"][d]) if d >= 0 else "length differs"), "why": f"parent process computed {rows[d] if d >= 0 else len(rows)}"})  # fmt: skip
     finally:
         shutil.rmtree(scratch, ignore_errors=True)
@@ -179,7 +192,7 @@ def replay(data):
 
             rows = xproc_child.compute()
             os.environ["XPROC_FULL"] = "1"
-            _, info, err = run_child((c["PYTHONHASHSEED"], c["LANG"], c["PYTHONUTF8"], "/" if c["cwd"] == "/" else scratch, c["-O"]))
+            _, info, err = run_child((c["PYTHONHASHSEED"], c["LANG"], c["PYTHONUTF8"], "/" if c["cwd"] == "/" else scratch, c["-O"], c.get("extra", {})))
             os.environ.pop("XPROC_FULL", None)
         finally:
             shutil.rmtree(scratch, ignore_errors=True)
